@@ -155,7 +155,8 @@ POS = [(-90.0, 0.0), (90.0, 123.0), (0.0, 0.0), (0.0, 180.0), (-23.67, 133.88), 
 
 def gen_vcv(tier, seed):
     mats = psd_lattice('thorough')
-    cols = [[[1e-4], [2e-4], [3e-4]], [[0.0], [0.0], [0.0]], [[1.0], [1e-8], [1e-4]], [[5.0], [5.0], [5.0]]]
+    cols = [[[1e-4], [2e-4], [3e-4]], [[0.0], [0.0], [0.0]], [[1.0], [1e-8], [1e-4]], [[5.0], [5.0], [5.0]],
+            [[1.0], [1.0], [4.0]], [[4.0], [0.0], [9.0]], [[100.0], [25.0], [1.0]]]      # whole numbers: also given as integer-typed arrays
     for p in POS:
         yield {'pos': list(p), 'mats': mats, 'cols': cols}
 
@@ -224,6 +225,8 @@ def ev_vcv(case, rec):
                          observed=out, expected=exp.tolist(), case=one)
             else:
                 rec.outcome('col-ok')
+                # the same column held in other array objects (read-only, strided, integer / float32 dtypes where exact)
+                cfg.forms_agree(rec, lambda vf: f(vf, la, lo), c, out, 'statistics:vcv_' + name + ':column', one, {'lat': la, 'lon': lo}, name + ' (3x1 column)')
     rec.sample({'pos': case['pos'], 'first': case['mats'][0]})
 
 
